@@ -2441,8 +2441,12 @@ impl Translator {
                             }
                             // struct member assignment
                             ExprKind::MemberAccess(accessed, field_name) => {
-                                // load struct.field
+                                // evaluate the struct once, into its temporary (see collect_locals_stmts)
+                                let struct_tmp = *offset_table.get(&accessed.id).unwrap();
                                 self.translate_expr(accessed, offset_table, mono, st);
+                                self.emit(st, Instr::StoreOffset(struct_tmp));
+                                // load struct.field
+                                self.emit(st, Instr::LoadOffset(struct_tmp));
                                 let idx =
                                     self.idx_of_field(&self.statics, mono, accessed, &field_name.v);
                                 self.emit(st, Instr::GetField(idx, Reg::Top));
@@ -2450,9 +2454,7 @@ impl Translator {
                                 self.translate_expr(rvalue, offset_table, mono, st);
                                 perform_op(st);
                                 // store in struct.field
-                                self.translate_expr(accessed, offset_table, mono, st);
-                                let idx =
-                                    self.idx_of_field(&self.statics, mono, accessed, &field_name.v);
+                                self.emit(st, Instr::LoadOffset(struct_tmp));
                                 self.emit(st, Instr::SetField(idx, Reg::Top));
                             }
                             // array assignment
@@ -2460,13 +2462,21 @@ impl Translator {
                                 let lhs_ty = self.get_ty(mono, array.node()).unwrap();
                                 match lhs_ty {
                                     SolvedType::Nominal(Nominal::Array, _) => {
-                                        // args
+                                        // evaluate the array and the index once, left to right,
+                                        // into their temporaries (see collect_locals_stmts)
+                                        let array_tmp = *offset_table.get(&array.id).unwrap();
+                                        let index_tmp = *offset_table.get(&index.id).unwrap();
                                         self.translate_expr(array, offset_table, mono, st);
+                                        self.emit(st, Instr::StoreOffset(array_tmp));
                                         self.translate_expr(index, offset_table, mono, st);
+                                        self.emit(st, Instr::StoreOffset(index_tmp));
+                                        // args
+                                        self.emit(st, Instr::LoadOffset(array_tmp));
+                                        self.emit(st, Instr::LoadOffset(index_tmp));
                                         // calculate the number being stored
                                         // by loading from array at index and perform operation
-                                        self.translate_expr(array, offset_table, mono, st);
-                                        self.translate_expr(index, offset_table, mono, st);
+                                        self.emit(st, Instr::LoadOffset(array_tmp));
+                                        self.emit(st, Instr::LoadOffset(index_tmp));
                                         self.emit(st, Instr::GetIndex(Reg::Top, Reg::Top));
                                         self.translate_expr(rvalue, offset_table, mono, st);
                                         perform_op(st);
@@ -2992,9 +3002,23 @@ impl Translator {
                     self.collect_locals_pat(&pat.0, locals, mono);
                     self.collect_locals_expr(expr, locals, mono);
                 }
-                StmtKind::Assign(lhs, _, expr) => {
+                StmtKind::Assign(lhs, assign_op, expr) => {
                     self.collect_locals_expr(lhs, locals, mono);
                     self.collect_locals_expr(expr, locals, mono);
+                    // a compound assignment reads and writes its target; the target's
+                    // sub-expressions are evaluated once, into temporaries
+                    if *assign_op != AssignOperator::Equal {
+                        match &*lhs.kind {
+                            ExprKind::MemberAccess(accessed, _) => {
+                                locals.insert(accessed.node());
+                            }
+                            ExprKind::IndexAccess(array, index) => {
+                                locals.insert(array.node());
+                                locals.insert(index.node());
+                            }
+                            _ => {}
+                        }
+                    }
                 }
                 StmtKind::Continue | StmtKind::Break => {}
                 StmtKind::Return(expr) => {
